@@ -12,7 +12,7 @@ import copy
 from dsim import core, refmodels
 from dsim.core import Result, Trace, canon, plain, InjectedFault, StepBudgetExceeded
 from dsim.isolate import call_in_fork, ChildFailure
-from dsim.seams import SimClock, ClockSeam, SimSolver, FaultyValueOf, warm_up_solver
+from dsim.seams import SimClock, ClockSeam, SimSolver, FaultyValueOf, LogSeam, warm_up_solver
 
 ID = "C15"
 LEVEL = "exploration"
@@ -58,6 +58,7 @@ MEASURES = {"pair": "distinct_ordered_pairs_previous_to_current_operation_kind",
 
 _clock_seam = ClockSeam()
 _solver = SimSolver()
+_log = LogSeam()
 
 PART_ALGOS = ["greedy", "roundrobin", "multifit", "kk", "cg", "dp", "ilp", "ckk", "snp", "rnp", "cbldm", "balanced"]
 PACK_ALGOS = ["ff", "ffd", "bf", "bfd", "bc"]
@@ -278,7 +279,8 @@ def gen_plan(seed, tier):
                 ops.append({"op": "repeat", "of": j})
         else:
             ops.append(_gen_call(r, pool, cfg, p_fault, focus))
-    return {"prop": "C15", "pool": pool, "ops": ops}
+    log = r.choice([None, None, None, None, None, "INFO", "DEBUG"])       # deployment configuration, the same for history and references
+    return {"prop": "C15", "pool": pool, "ops": ops, "log": log}
 
 
 # ---------------------------------------------------------------- code that runs inside history / reference children
@@ -293,6 +295,7 @@ class _Env:
         self.plan = plan
         _clock_seam.install()
         _solver.install()
+        _log.configure(plan.get("log"))
         self.clock = SimClock({"kind": "uniform", "t0": 0.0, "tick": 1.0}, max_reads=400000)
         _clock_seam.use(self.clock)
         self.pool = {}
@@ -735,6 +738,8 @@ def execute(plan, seed=0):
     res.cells.append("@shape:%016x" % core.H(shape))
     for c in plan["pool"]:
         res.cells.append("container:" + c["form"])
+    if plan.get("log"):
+        res.probe("history_with_logging_enabled_" + plan["log"])
     return res.finish(tr)
 
 
@@ -794,6 +799,8 @@ def shrink_candidates(plan, clause):
             p = dict(plan)
             p["ops"] = ops[:i] + [copy.deepcopy(_resolve(plan, i))] + ops[i + 1:]
             yield p
+    if plan.get("log"):
+        yield dict(plan, log=None)
     # remove faults, simplify output types and kwargs
     for i, op in enumerate(ops):
         if op["op"] != "call":
